@@ -33,6 +33,9 @@ CONFIGS = {
     # several users with separate local shard caches, connected only by the store's global dedup index
     "U": dict(BASE, HF_XET_MAX_XORB_CHUNKS="4", HF_XET_MAX_XORB_BYTES="1000", HF_XET_NRANGES_IN_STREAMING_FRAGMENTATION_ESTIMATOR="2",
               HF_XET_MDB_SHARD_GLOBAL_DEDUP_CHUNK_MODULUS="3"),
+    # one chunk per xorb and three upload permits: registrations wait for a permit while uploads are in flight
+    "P": dict(BASE, HF_XET_MAX_XORB_CHUNKS="1", HF_XET_MAX_XORB_BYTES="100000", HF_XET_NRANGES_IN_STREAMING_FRAGMENTATION_ESTIMATOR="4",
+              HF_XET_MAX_CONCURRENT_UPLOADS="3"),
     "E": {"HF_XET_TARGET_CHUNK_SIZE": "256", "HF_XET_MAX_XORB_CHUNKS": "3", "HF_XET_MAX_XORB_BYTES": "4096",
           "HF_XET_NRANGES_IN_STREAMING_FRAGMENTATION_ESTIMATOR": "128"},
 }
@@ -61,6 +64,8 @@ def run_all(ctx, props, faults=1):
             ("A", "limits", 1, {}), ("G", "limits", 1, {}), ("C", "limits", 1, {}),
             # every single store call failing in turn (nothing stored / stored then failed / failing at finalize)
             ("A", "sweep", 1, {"nputs": 8}), ("G", "sweep", 1, {"nputs": 10}),
+            # all upload permits taken by slow uploads, one of which fails while the next registration waits
+            ("P", "saturate", 1, {}),
             # 10-16 files cleaned concurrently with session-shard flushes in between, then re-uploaded
             ("S", "cstorm", 6 * k, {"blocks": 200})]
     counts = {}
